@@ -388,6 +388,10 @@ def run(cx: Cx):
                              where=cx.where(sysinit))
     for c in ('Collector', 'AgentCollector', 'FileCollector'):
         check_forwarding_chain(cx, COLL + c, ['frequency', 'start', 'end'], CORE + 'System.__init__')
+    from .common import include_premises
+    include_premises(cx, ['C01'], 'a system runs once per due timestep only if it is queued exactly once',
+                     only=lambda o: o.rule in ('R-PAIR', 'R-DISC', 'R-NONE', 'R-ATOMIC'))
+    include_premises(cx, ['C05'], 'a system runs once per due timestep only if the scheduler visits every queued system once')
 
 
 def _passed_entry_check(cx: Cx, p):
